@@ -129,6 +129,8 @@ func VerifRun_C04a() {
 	var pre []byte
 	if verifParam("SIGMA") == 1 {
 		pre = verifBytesIn("pre", n, "[]=-\n\r x") // long brackets and line ends only
+	} else if verifParam("SIGMA") == 2 {
+		pre = verifBytesIn("pre", n, "[]=-\n\r")
 	} else {
 		pre = verifBytesIn("pre", n, "'\"\\n[]=- \t\n\rx\xc3\xa9\xe4\xb8\xad\xf0\x9f\x98\x80")
 	}
